@@ -527,7 +527,7 @@ func (m *Manager) acquireTasks(envId uid.ID, taskDescriptors Descriptors) (err e
 
 			deployedTasks = make(DeploymentMap)
 
-			outcomeCh := make(chan ResourceOffersOutcome)
+			outcomeCh := make(chan ResourceOffersOutcome, 1) // buffered: resourceOffers hands the outcome over without blocking, possibly before we start receiving
 			m.tasksToDeploy <- &ResourceOffersDeploymentRequest{
 				tasksToDeploy: tasksToRun,
 				envId:         envId,
